@@ -39,6 +39,8 @@ if cfg.get('break') == 'thin_layer':
     upper = tuple([radius[2]] + list(bounds[1:])) if nl > 1 else (radius[2],)
 if cfg.get('break') == 'nan_density':
     rho_bulk = float('nan')
+if cfg.get('break') == 'zero_density':
+    rho_bulk = 0.0
 if cfg.get('break') == 'inf_density':
     rho_bulk = float('inf')
 if cfg.get('break') == 'nan_frequency':
